@@ -454,9 +454,8 @@ package scipipe
 //@ func (*Task).Execute(t)
 //@   props C01 C02 C03 C05 C06 C09
 //@   requires wf: wfTask(t)
-//@   requires no-audit-alias: noAuditAlias(t)
 //@   modifies *
-//@   effects no-inplace-create[C01]: forall p string :: effCreated[p] && !old(effCreated)[p] ==> !isFinal(t, p)
+//@   effects no-inplace-create[C01]: noAuditAlias(t) ==> forall p string :: effCreated[p] && !old(effCreated)[p] ==> !isFinal(t, p)
 //@   effects rename-only-from-temp-after-success[C01,C09]: forall a string, b string :: newRename(a, b) && isFinal(t, b) ==> hasPrefix(a, tmpDirOf(t)) && cmdSucceeded(t) && old(!anyOutExists(t))
 //@   effects exec-in-tempdir[C01,C13]: forall s string :: effExec[s] && !old(effExec)[s] ==> hasPrefix(s, "cd " + tmpDirOf(t) + " && ")
 //@   effects refuse-on-tempdir[C03]: statNotExist(old(fsEpoch), tmpDirOf(t))
@@ -1071,8 +1070,13 @@ package scipipe
 //@ define wfOutPort(pt *OutPort) bool = pt.RemotePorts != nil && (forall r string :: r in pt.RemotePorts ==> pt.RemotePorts[r] != nil && pt.RemotePorts[r].Chan != nil) && (forall r1 string, r2 string :: r1 in pt.RemotePorts && r2 in pt.RemotePorts && r1 != r2 ==> pt.RemotePorts[r1] != pt.RemotePorts[r2] && pt.RemotePorts[r1].Chan != pt.RemotePorts[r2].Chan)
 //@ define isRemoteChan(pt *OutPort, c chan *FileIP) bool = exists r string :: r in pt.RemotePorts && pt.RemotePorts[r].Chan == c
 
+// Every IP that travels through a port was built by NewFileIP: it has its BaseIP and an (initially unused) sub-stream port.
+//@ define validIP(ip *FileIP) bool = ip != nil && ip.BaseIP != nil && ip.SubStream != nil && ip.SubStream.Chan != nil
+//@ chaninv *FileIP valid-ip[C04]: validIP($v)
+
 //@ func (*InPort).Send(pt, ip)
 //@   props C04 C08
+//@   requires valid: validIP(ip)
 //@   modifies chan(pt.Chan)
 //@   ensures appended: chanSentN(pt.Chan) == old(chanSentN(pt.Chan)) + 1 && chanSentAt(pt.Chan, old(chanSentN(pt.Chan))) == ip
 //@   ensures earlier-kept: forall j int :: 0 <= j && j < old(chanSentN(pt.Chan)) ==> chanSentAt(pt.Chan, j) == old(chanSentAt(pt.Chan, j))
@@ -1081,6 +1085,7 @@ package scipipe
 //@ func (*OutPort).Send(pt, ip)
 //@   props C04 C08
 //@   requires wf: wfOutPort(pt)
+//@   requires valid: validIP(ip)
 //@   modifies chan, outN, outAt
 //@   ghost set outAt = update(outAt, pt, update(outAt[pt], outN[pt], ip))
 //@   ghost set outN = update(outN, pt, outN[pt] + 1)
@@ -1201,6 +1206,7 @@ package scipipe
 //@   ensures open-iff-every-port-delivered: inPortsOpen <==> (forall k string :: k in p.inPorts ==> old(chanRecvN(p.inPorts[k].Chan)) < chanTotal(p.inPorts[k].Chan))
 //@   ensures items-in-arrival-order: forall k string :: k in p.inPorts && old(chanRecvN(p.inPorts[k].Chan)) < chanTotal(p.inPorts[k].Chan) ==> k in ips && ips[k] == chanInAt(p.inPorts[k].Chan, old(chanRecvN(p.inPorts[k].Chan)))
 //@   ensures only-ports: forall k string :: k in ips ==> k in p.inPorts
+//@   ensures valid-items: forall k string :: k in ips ==> validIP(ips[k])
 //@   ensures other-channels-untouched: forall c chan *FileIP :: !fresh(c) && !isInChan(p.inPorts, c) ==> chanRecvN(c) == old(chanRecvN(c)) && chanRecvA(c) == old(chanRecvA(c))
 //@   ensures nothing-sent: forall c chan *FileIP :: !fresh(c) ==> chanSentN(c) == old(chanSentN(c))
 //@   loop 0 invariant fresh: fresh(ips) && ips != nil
@@ -1210,6 +1216,7 @@ package scipipe
 //@   loop 0 invariant open: inPortsOpen <==> (forall k string :: $visited[k] ==> old(chanRecvN(p.inPorts[k].Chan)) < chanTotal(p.inPorts[k].Chan))
 //@   loop 0 invariant items: forall k string :: $visited[k] && old(chanRecvN(p.inPorts[k].Chan)) < chanTotal(p.inPorts[k].Chan) ==> k in ips && ips[k] == chanInAt(p.inPorts[k].Chan, old(chanRecvN(p.inPorts[k].Chan)))
 //@   loop 0 invariant only-ports: forall k string :: k in ips ==> $visited[k]
+//@   loop 0 invariant valid-items: forall k string :: k in ips ==> validIP(ips[k])
 //@   loop 0 invariant others: forall c chan *FileIP :: !fresh(c) && !isInChan(p.inPorts, c) ==> chanRecvN(c) == old(chanRecvN(c)) && chanRecvA(c) == old(chanRecvA(c))
 //@   loop 0 invariant nothing-sent: forall c chan *FileIP :: !fresh(c) ==> chanSentN(c) == old(chanSentN(c))
 
@@ -1264,7 +1271,7 @@ package scipipe
 //@   props C02 C09 C11
 //@   modifies locked, new(BaseIP.path), new(BaseIP.id), new(BaseIP.auditInfo), new(FileIP.BaseIP), new(FileIP.lock), new(FileIP.SubStream), new(FileIP.doStream), new(FileIP.buffer), new(InPort.Chan), new(InPort.name), new(InPort.process), new(InPort.RemotePorts), new(InPort.ready), new(map[string]*OutPort), new(chan)
 //@   ensures invalid-path-is-an-error[C09]: (err == nil) <==> validPath(path)
-//@   ensures fresh: err == nil ==> res != nil && fresh(res) && res.BaseIP != nil && fresh(res.BaseIP) && allocated(res.BaseIP) && res.path == path && !res.doStream && res.SubStream != nil && fresh(res.SubStream) && res.lock != nil
+//@   ensures fresh: err == nil ==> res != nil && fresh(res) && res.BaseIP != nil && fresh(res.BaseIP) && allocated(res.BaseIP) && res.path == path && !res.doStream && res.SubStream != nil && fresh(res.SubStream) && res.SubStream.Chan != nil && res.lock != nil
 //@   ensures existing-file-carries-its-record[C02,C11]: err == nil && statOK(fsEpoch, path) ==> res.auditInfo == loadedAudit(path + ".audit.json", fsEpoch)
 //@   ensures no-effects: effCreated == old(effCreated) && effMkdir == old(effMkdir) && effRenamed == old(effRenamed) && effRemoved == old(effRemoved) && effExec == old(effExec)
 
@@ -1288,7 +1295,7 @@ package scipipe
 //@   ensures identity[C04,C06]: t.Name == name && t.InIPs == inIPs && t.Params == params && t.Tags == tags && t.cores == cores && t.workflow == workflow && t.Process == process && t.CustomExecute == customExecute && t.portInfos == portInfos
 //@   ensures done-unbuffered[C08]: t.Done != nil && fresh(t.Done) && chanCap(t.Done) == 0 && chanSentN(t.Done) == 0 && !chanClosed(t.Done)
 //@   ensures out-ips-cover-path-funcs[C04]: t.OutIPs != nil && fresh(t.OutIPs) && (forall o string :: o in t.OutIPs <==> o in outPathFuncs)
-//@   ensures out-ips-valid[C09]: forall o string :: o in t.OutIPs ==> t.OutIPs[o] != nil && fresh(t.OutIPs[o]) && validPath(t.OutIPs[o].path)
+//@   ensures out-ips-valid[C09]: forall o string :: o in t.OutIPs ==> t.OutIPs[o] != nil && fresh(t.OutIPs[o]) && validPath(t.OutIPs[o].path) && validIP(t.OutIPs[o])
 //@   ensures stream-flag-propagated[C17]: forall o string :: o in t.OutIPs ==> (t.OutIPs[o].doStream <==> (o in portInfos && portInfos[o].doStream))
 //@   ensures substream-drained[C18]: forall k string :: joinPort(portInfos, k) ==> k in t.subStreamIPs && chanRecvN(subChan(inIPs, k)) == chanTotal(subChan(inIPs, k)) && len(t.subStreamIPs[k]) == chanTotal(subChan(inIPs, k)) - old(chanRecvN(subChan(inIPs, k))) && (forall j int :: 0 <= j && j < len(t.subStreamIPs[k]) ==> t.subStreamIPs[k][j] == chanInAt(subChan(inIPs, k), old(chanRecvN(subChan(inIPs, k))) + j))
 //@   ensures nothing-sent: forall c chan *FileIP :: !fresh(c) ==> chanSentN(c) == old(chanSentN(c))
@@ -1320,7 +1327,7 @@ package scipipe
 //@   loop 2 invariant done: t.Done != nil && fresh(t.Done) && chanCap(t.Done) == 0 && chanSentN(t.Done) == 0 && !chanClosed(t.Done)
 //@   loop 2 invariant vis: forall o string :: $visited[o] ==> o in outPathFuncs
 //@   loop 2 invariant cover: forall o string :: o in t.OutIPs <==> $visited[o]
-//@   loop 2 invariant valid: forall o string :: o in t.OutIPs ==> t.OutIPs[o] != nil && fresh(t.OutIPs[o]) && allocated(t.OutIPs[o]) && allocated(t.OutIPs[o].BaseIP) && validPath(t.OutIPs[o].path)
+//@   loop 2 invariant valid: forall o string :: o in t.OutIPs ==> t.OutIPs[o] != nil && fresh(t.OutIPs[o]) && allocated(t.OutIPs[o]) && allocated(t.OutIPs[o].BaseIP) && validPath(t.OutIPs[o].path) && validIP(t.OutIPs[o]) && allocated(t.OutIPs[o].SubStream)
 //@   loop 2 invariant stream: forall o string :: o in t.OutIPs ==> (t.OutIPs[o].doStream <==> (o in portInfos && portInfos[o].doStream))
 //@   loop 2 invariant distinct: forall o1 string, o2 string :: o1 in t.OutIPs && o2 in t.OutIPs && o1 != o2 ==> t.OutIPs[o1] != t.OutIPs[o2]
 //@   loop 2 invariant inputs-unchanged: forall k string :: joinPort(portInfos, k) ==> inIPs[k] == old(inIPs[k]) && inIPs[k].SubStream == old(inIPs[k].SubStream) && subChan(inIPs, k) == old(subChan(inIPs, k))
